@@ -66,6 +66,9 @@ pub enum How {
     Vec,
     Bytes,
     BytesRef,
+    /// only meaningful for get_bucket: the handle is taken from the parent's bucket listing
+    /// (`Tx::buckets()` / `Bucket::buckets()`) instead of being looked up by name; a slice elsewhere
+    Listed,
 }
 
 pub const ALL_HOW: [How; 7] = [
